@@ -327,7 +327,7 @@ def trace_check(chk, spec_tla, cfg, summary, classify=None, label="trace"):
             key = classify(rec, run, res, recs) if classify else None
             if key is None:
                 key = f"{label}:{res['invariant']['name'] if res['invariant'] else 'rejected'}:{rec.get('ev')}"
-            keep = os.path.join(REPLAYS, f"{chk.pid}-{os.path.basename(res['file'])}")
+            keep = os.path.join(REPLAYS, f"{chk.pid}-seed{run.get('seed', 0)}-{os.path.basename(res['file'])}")
             os.makedirs(REPLAYS, exist_ok=True)
             lo, hi = run.get("first_line", 1), run.get("last_line", len(recs))
             with open(keep, "w") as f:
